@@ -57,6 +57,36 @@ def run_mutant(m, quick_args=()):
         shutil.rmtree(d, ignore_errors=True)
 
 
+def run_patch(patch, prop):
+    d = _scratch_copy()
+    try:
+        r = subprocess.run(["patch", "-p1", "-s", "-d", d, "-i", patch],
+                           capture_output=True, text=True)
+        if r.returncode != 0:
+            return "stale", "patch does not apply: " + r.stdout[-300:], 0.0
+        env = dict(os.environ)
+        env.pop("VERIF_CHILD", None)
+        env["PYTHONPATH"] = d
+        env["VERIF_PYTATO_ROOT"] = d
+        env["VERIF_EVIDENCE_DIR"] = os.path.join(d, "evidence")
+        env["VERIF_REPLAY_DIR"] = os.path.join(d, "replays")
+        t0 = time.monotonic()
+        r = subprocess.run(
+            [os.path.join(driver.VERIF_DIR, "check"), prop, "--tier", "quick"],
+            capture_output=True, text=True, env=env, cwd=driver.VERIF_DIR,
+            timeout=1800)
+        wall = time.monotonic() - t0
+        lines = [ln for ln in r.stdout.splitlines()
+                 if ln.startswith("VIOLATION") or "violation class" in ln]
+        if r.returncode == 1 and any(ln.startswith("VIOLATION") for ln in lines):
+            return "killed", "; ".join(lines[:2])[:300], wall
+        if r.returncode == 0:
+            return "survived", r.stdout[-300:], wall
+        return "harness-error", (r.stdout[-800:] + r.stderr[-1500:]), wall
+    finally:
+        shutil.rmtree(d, ignore_errors=True)
+
+
 def main(what, args):
     from checks.mutants import MUTANTS
     if what == "selftest-mutants":
@@ -75,6 +105,26 @@ def main(what, args):
             bad += not ok
             print(f"{'ok  ' if ok else 'FAIL'} {m['id']:45s} {m['prop']} "
                   f"{status:14s} {wall:6.1f}s  {info if not ok or status == 'killed' else ''}",
+                  flush=True)
+        return 1 if bad else 0
+    if what == "selftest-seeded":
+        # the independent seeded changes (seeded/<id>/patch.diff), applied to a
+        # scratch copy of /repo/pytato -- /repo itself is not touched
+        import glob
+        import json
+        bad = 0
+        only = os.environ.get("VERIF_SEEDED")
+        for d in sorted(glob.glob(os.path.join(driver.VERIF_DIR, "seeded", "*"))):
+            name = os.path.basename(d)
+            if only and name != only:
+                continue
+            meta = json.load(open(os.path.join(d, "meta.json")))
+            status, info, wall = run_patch(os.path.join(d, "patch.diff"),
+                                           meta["property"])
+            ok = status == "killed"
+            bad += not ok
+            print(f"{'ok  ' if ok else 'FAIL'} {name:12s} {meta['property']} "
+                  f"{status:14s} {wall:6.1f}s  {info[:160] if ok else info}",
                   flush=True)
         return 1 if bad else 0
     if what == "selftest-determinism":
